@@ -92,7 +92,7 @@ Proof.
   assert (Hqs : Forall qwfP q) by (apply Forall_forall; intros x Hx; eapply forallb_forall in Hq; eauto).
   destruct (norm_sem w g Hw Hsv _ "Query" 0%Z q flat Hfl Hqs Hflat) as [r [Hr Hj]].
   exists (delete_key federation_field (JObj L)), r. split; [|split; [exact Hr|]].
-  - unfold fed_exec. cbv zeta. rewrite Hfl, Hplan, Hex. reflexivity.
+  - unfold fed_exec, fed_exec_gen. cbv zeta. change (flatten_gen true) with flatten. rewrite Hfl, Hplan, Hex. reflexivity.
   - eapply jeq_trans; [apply simv_delete_jeq; exact Hsim | exact Hj].
 Qed.
 
